@@ -118,6 +118,24 @@ Definition n_seig := name4 115 101 105 103.
 Definition n_roll := name4 114 111 108 108.
 Definition n_rap := name4 114 97 112 32.
 Definition n_alst := name4 97 108 115 116.
+(* stage 5 *)
+Definition n_meta := name4 109 101 116 97.
+Definition n_ilst := name4 105 108 115 116.
+Definition n_cART := name4 169 65 82 84.      (* "\xa9ART" *)
+Definition n_cnam := name4 169 110 97 109.
+Definition n_ctoo := name4 169 116 111 111.
+Definition n_ccpy := name4 169 99 112 121.
+Definition n_desc := name4 100 101 115 99.
+Definition n_vttc := name4 118 116 116 99.
+Definition n_vttC := name4 118 116 116 67.
+Definition n_vlab := name4 118 108 97 98.
+Definition n_ctim := name4 99 116 105 109.
+Definition n_iden := name4 105 100 101 110.
+Definition n_sttg := name4 115 116 116 103.
+Definition n_payl := name4 112 97 121 108.
+Definition n_vtta := name4 118 116 116 97.
+Definition n_vtte := name4 118 116 116 101.
+Definition n_vsid := name4 118 115 105 100.
 
 (* ---------------------------------------------------------------- box header (box.go / boxsr.go) *)
 Record hdr := mkHdr { h_name : list N; h_size : N; h_len : N }.
@@ -1176,6 +1194,14 @@ Definition dec_sgpd (h : hdr) : parser (leaf * rsvT) :=
   fun bs => (pdo its <- rd_many (S (length bs)) cnt (rd_sgpd_item v dlen gt) ;;
              pret (LSgpd v (vf_flags vf) gt dlen dgdi (map fst its) (forallb (fun x => snd x =? 0) its), [map snd its])) bs.
 
+(* ================================================================ stage 5 *)
+(* vttC vlab ctim iden sttg payl vtta: `sr.ReadFixedLengthString(hdr.payloadLen())`, Size 8+len, the string written
+   back: the same three texts as free/skip (dec_free; a Go string holds any bytes).
+   vtte: DecodeVtteSR reads nothing, Size() = 8, Encode writes the header.
+   vsid: SourceID = sr.ReadUint32(), Size() = 12 (the four bytes are kept as bytes). *)
+Definition dec_empty (h : hdr) : parser (leaf * rsvT) := pret (LFree (h_name h) [], []).
+Definition dec_b4 (h : hdr) : parser (leaf * rsvT) := pdo d <- rdB 4 ;; pret (LFree (h_name h) d, []).
+
 (* ---------------------------------------------------------------- encoders (bodies) *)
 Definition ok_bytes (l : list N) : res (list N) := Ok l.
 
@@ -1485,7 +1511,9 @@ Definition leaf_table : list (list N * (hdr -> parser (leaf * rsvT))) :=
     (n_url, dec_url); (n_avcC, dec_avcC); (n_btrt, dec_btrt); (n_pasp, dec_pasp); (n_colr, dec_colr);
     (n_clap, dec_clap); (n_schm, dec_schm); (n_cslg, dec_cslg);
     (n_senc, dec_senc); (n_emsg, dec_emsg); (n_elng, dec_elng); (n_kind, dec_kind);
-    (n_hvcC, dec_hvcC); (n_subs, dec_subs); (n_esds, dec_esds); (n_uuid, dec_uuid); (n_sgpd, dec_sgpd) ].
+    (n_hvcC, dec_hvcC); (n_subs, dec_subs); (n_esds, dec_esds); (n_uuid, dec_uuid); (n_sgpd, dec_sgpd);
+    (n_vttC, dec_free); (n_vlab, dec_free); (n_ctim, dec_free); (n_iden, dec_free); (n_sttg, dec_free);
+    (n_payl, dec_free); (n_vtta, dec_free); (n_vtte, dec_empty); (n_vsid, dec_b4) ].
 
 (* boxes with a field prefix followed by child boxes.  PStrict off: DecodeContainerChildrenSR(hdr, startPos+off,
    startPos+hdr.Size) (sizes cross-checked against the bytes consumed); PEntry start: the sample entry loop
@@ -1497,7 +1525,10 @@ Definition pre_table : list (list N * ((hdr -> parser (leaf * rsvT)) * loopkind)
     (n_hev1, (dec_visual, PEntry 86)); (n_encv, (dec_visual, PEntry 86)); (n_av01, (dec_visual, PEntry 86));
     (n_vp08, (dec_visual, PEntry 86)); (n_vp09, (dec_visual, PEntry 86));
     (n_mp4a, (dec_audio, PEntry 36)); (n_enca, (dec_audio, PEntry 36)); (n_ac3, (dec_audio, PEntry 36));
-    (n_ec3, (dec_audio, PEntry 36)) ].
+    (n_ec3, (dec_audio, PEntry 36));
+    (* MetaBox in its ISO form (version and flags, then the children: DecodeContainerChildrenSR(hdr, startPos+12, ..));
+       the QuickTime form is a pure container, see meta_qt *)
+    (n_meta, (dec_fullonly, PStrict 12)) ].
 (* len(children) != int(sampleCount) / entryCount != dref.EntryCount *)
 Definition pre_count_ok (l : leaf) (n : N) : bool :=
   match l with LStsd _ _ c => n =? c | LDref _ _ c => n =? c | _ => true end.
@@ -1505,12 +1536,24 @@ Definition pre_count_ok (l : leaf) (n : N) : bool :=
 (* containers whose decoder is DecodeContainerChildrenSR + AddChild and whose encoder is EncodeContainerSW *)
 Definition cont_table : list (list N) :=
   [ n_moov; n_trak; n_mdia; n_minf; n_stbl; n_moof; n_traf; n_mvex; n_dinf; n_edts; n_udta; n_sinf; n_schi;
-    n_mfra; n_tref ].
+    n_mfra; n_tref;
+    (* ilst, the GenericContainerBox types (iTunes metadata items, desc) and vttc *)
+    n_ilst; n_cART; n_cnam; n_ctoo; n_ccpy; n_desc; n_vttc ].
 
 Fixpoint lookup {A} (n : list N) (t : list (list N * A)) : option A :=
   match t with [] => None | (k, a) :: t' => if bytes_eqb n k then Some a else lookup n t' end.
 
 Definition is_cont (n : list N) : bool := existsb (bytes_eqb n) cont_table.
+
+(* DecodeMetaSR looks ahead: with a payload of at least 8 bytes whose bytes 4..8 are "hdlr" the box is a QuickTime meta
+   atom -- no version and flags, children from startPos+8, Size() = 8 + children, Encode / EncodeSW (since repo commit
+   35ed2e5) write header and children: a pure container.  Otherwise it is the ISO form of pre_table.  r is the slice
+   behind the header; DecodeBoxSR has checked that it holds the payload. *)
+Definition meta_qt (h : hdr) (r : list N) : bool :=
+  bytes_eqb (h_name h) n_meta && (8 <=? payload_len h) && bytes_eqb (firstn 4 (skipn 4 r)) n_hdlr.
+Definition pre_lookup (h : hdr) (r : list N) : option ((hdr -> parser (leaf * rsvT)) * loopkind) :=
+  if meta_qt h r then None else lookup (h_name h) pre_table.
+Definition cont_like (h : hdr) (r : list N) : bool := is_cont (h_name h) || meta_qt h r.
 
 (* ---------------------------------------------------------------- the tree *)
 Inductive mbox :=
@@ -1564,7 +1607,7 @@ Fixpoint decode_box (fuel : nat) (bs : list N) : res (mbox * list N) :=
                        | Err => Err | Panic => Panic | OutOfFuel => OutOfFuel
                        end
            | None =>
-             match lookup (h_name h) pre_table with
+             match pre_lookup h r with
              | Some (d, lk) =>
                match d h r with
                | Ok ((l, rsv), r1) =>
@@ -1584,7 +1627,7 @@ Fixpoint decode_box (fuel : nat) (bs : list N) : res (mbox * list N) :=
                | Err => Err | Panic => Panic | OutOfFuel => OutOfFuel
                end
              | None =>
-             if is_cont (h_name h) then
+             if cont_like h r then
                (* pos starts at startPos+8 whatever the header length; endPos = startPos+size *)
                match decode_children f (h_size h - 8) 0 0 r with
                | Ok (cs, r') =>
